@@ -1,9 +1,10 @@
+\* two channels, keyed records only: 12,402 distinct / 241,574 generated states, ~10 s with 8 idle workers
 SPECIFICATION Spec
 CONSTANTS
   Chans = {"c1", "c2"}
   Ids = {1, 2}
   Froms = {"u1"}
-  Nos = {"", "n1"}
+  Nos = {"n1"}
   Pays = {0}
   Surfaces = {"typed", "compat"}
   MaxSeq = 2
